@@ -37,12 +37,16 @@ Skel(h) ==
   \cup { U(k, h) : k \in UnKinds }
   \cup { Cmp(h, op, L) : op \in CmpOps } \cup { Cmp(L, op, h) : op \in {"<", "==", ">="} }
   \cup { IfE(h, L, L), IfE(L, h, L), IfE(L, L, h) }
-  \cup { Call(h, << L >>), Call(ff, << h >>), Call(ff, << L, h >>), Call(ff, << >>),
+  \cup { Call(h, << L >>), Call(ff, << h >>), Call(ff, << L, h >>), Call(ff, << h, L >>), Call(ff, << >>),
+         CallKw(ff, << h, L >>, << KwArg("k1", L) >>), N("Tup", << L, h, L >>),
          CallKw(ff, << h >>, << KwArg("k1", L) >>), CallKw(ff, << >>, << KwArg("k2", h), KwArg("k1", L) >>),
          B("Sub", h, L), B("Sub", tt, h), Look(h, "p") }
 SliceForms == { N("Slice", << L >>), N("Slice", << L, L >>), N("Slice", << NoneE, L >>),
                 N("Slice", << L, NoneE >>), N("Slice", << NoneE, NoneE >>),
                 N("Slice", << L, L, L >>), N("Slice", << NoneE, NoneE, L >>), N("Slice", << NoneE >>),
+                \* a conditional as a bound: its else branch ends at the colon
+                N("Slice", << IfE(x, y, z), L >>), N("Slice", << L, IfE(x, y, z) >>),
+                N("Slice", << L, IfE(x, y, z), L >>), N("Slice", << NoneE, IfE(x, y, z), NoneE >>),
                 \* falsy bounds are bounds, not omissions
                 N("Slice", << KI(0), L >>), N("Slice", << L, KI(0) >>), N("Slice", << KI(0), L, KI(0) >>),
                 N("Slice", << K(BoolV(FALSE)), L >>), N("Slice", << N("Product", << KI(0), x >>), L >>) }
